@@ -1,0 +1,24 @@
+//go:build verif
+
+package share
+
+// Contracts for the deductive verifier in /verif (govc). Comments only; build tag "verif".
+
+//@ pure func sharesBytes(s []libshare.Share) [][]byte
+//@ extern github.com/celestiaorg/go-square/v4/share.ToBytes
+//@   ensures result == sharesBytes(shares) && len(result) == len(shares)
+//@ pure func shareProofValidated(sp types.ShareProof, root []byte) bool
+//@ extern (github.com/cometbft/cometbft/types.ShareProof).Validate
+//@   ensures err == nil ==> shareProofValidated(sp, root)
+
+// C12: a client verifies a range result it received; everything in the receiver is untrusted.
+// Accepted only if the shares are exactly the data the proof proves (same count, same bytes) and the
+// proof validates against the data root; malformed results are errors, not panics.
+//@ func (*GetRangeResult).Verify
+//@   property C12
+//@   nopanic
+//@   ensures err == nil ==> r.Proof != nil && len(r.Shares) == len(deref(r.Proof).Data)
+//@   ensures err == nil ==> forall i int :: 0 <= i && i < len(r.Shares) ==> bytesEq(sharesBytes(r.Shares)[i], deref(r.Proof).Data[i])
+//@   ensures err == nil ==> shareProofValidated(deref(r.Proof), dataRoot)
+//@   loop 1: invariant -1 <= rangeindex && rangeindex < len(rawShares)
+//@   loop 1: invariant forall j int :: 0 <= j && j <= rangeindex ==> bytesEq(rawShares[j], deref(r.Proof).Data[j])
